@@ -286,6 +286,21 @@ def cnt_read(ctx):
             if cl and cl[0] == 'closure':
                 cr = versionless(interp(facts, facts.cb(cl[1])).ret)
                 ok = cr == ('field', ('param', 2), 'counter')
+    if not ok and is_call(r, 'fold') and len(r[2]) == 3 and r[2][2][0] == 'closure':
+        # fold form: every counter of inner (the dots of inner.iter(), or the values of inner.dots) added to a zero total
+        src = r[2][0]
+        base, kind, clo = iter_source(src)
+        pp = param_path(base)
+        whole = bool(pp and pp[0] == 1 and not clo and not (set(iter_adaptors(src)) & LOSSY_ADAPTORS))
+        i0 = drop_lv(r[2][1])
+        zero = (i0[0] == 'call' and call_name(i0) in ('default', 'zero', 'new') and not i0[2]) or (i0[0] == 'const' and i0[1] == 0)
+        cb_ = facts.cb(r[2][2][1])
+        if whole and zero and cb_ is not None:
+            cr = versionless(interp(facts, cb_).ret)
+            is_vals = pp[1][-1:] == ('dots',) and kind == 'values'
+            item = ('param', 3) if is_vals else ('field', ('param', 3), 'counter')
+            ok = (cr[0] == 'binop' and cr[1] == 'Add' and {cr[2], cr[3]} == {('param', 2), item}) or \
+                 (is_call(cr, 'add') and len(cr[2]) == 2 and {cr[2][0], cr[2][1]} == {('param', 2), item})
     if not ok:
         # accumulator form: total = 0; for dot in self.inner.iter() { total += dot.counter }
         from .loops import accumulates, item_derived
